@@ -331,6 +331,13 @@ class ExprMixin:
                 return Poly.const(len(base))
             if name == 'T':
                 return base
+        if isinstance(base, Poly) and base.const_value() is not None:
+            if name == 'size':
+                return Poly.const(1)
+            if name == 'ndim':
+                return Poly.const(0)
+            if name == 'shape':
+                return Tup([])
         pb = P(base)
         at = nf.attr(pb, name)
         key = at.single_atom()
@@ -382,6 +389,8 @@ class ExprMixin:
                 lo, hi, stp = g(key.lo), g(key.hi), g(key.step)
                 if 'x' not in (lo, hi, stp):
                     return Tup(base.items[slice(lo, hi, stp)], base.kind)
+        if isinstance(base, Poly) and base.const_value() is not None:
+            return base     # a 0-d value can only be indexed by () / Ellipsis, which returns it
         if isinstance(base, Poly):
             a = base.single_atom()
             if a is not None and a[0] == 'app' and a[1] == 'dict' and isinstance(key, (Const, Poly)):
